@@ -181,9 +181,9 @@ pub fn c12() -> i32 {
     // ---- (b) k faults at three cadences
     {
         let mut scns = Vec::new();
-        for (tp, spec) in [("1+1", false), ("1+1", true), ("1+1+1", false)] {
+        for (tp, spec) in [("1+1", false), ("1+1", true), ("1+1+1", false), ("1+2", false), ("2+2", true)] {
             for ms in [16u64, 100, 250] {
-                if !t && tp == "1+1+1" && ms != 100 {
+                if !t && tp != "1+1" && ms != 100 {
                     continue;
                 }
                 let h = if ms == 16 { 14 } else { 10 };
@@ -241,8 +241,8 @@ pub fn c12() -> i32 {
             let to_rounds = (timeout * 1000 / 16_667) as i32;
             for len in 1..=to_rounds + 3 {
                 for gap in [3, 9] {
-                    for w in [2usize, 0] {
-                        let mut s = base_scn("c12-silence", "1+1", w, 0, false, Pred::RepeatLast, Program::Changing, 1);
+                    for (w, tp) in [(2usize, "1+1"), (0, "1+1"), (2, "1+2")] {
+                        let mut s = base_scn("c12-silence", tp, w, 0, false, Pred::RepeatLast, Program::Changing, 1);
                         for p in s.peers.iter_mut() {
                             p.notify_ms = notify;
                             p.timeout_ms = timeout;
